@@ -1,7 +1,17 @@
 (* Properties/C08.v — the decoder honours v1-v3 and rejects truncated / extended / unknown-version
    files (C08).  Theorems about the Gallina transcription of Ontology::from_bytes and the
-   parser/binary modules (Model/Binary.v [decode]), for EVERY byte string. *)
-From HpoV Require Import Gen.Consts Model.Base Model.Onto Model.Binary Proofs.BinaryP Proofs.DecodeP.
+   parser/binary modules (Model/Binary.v [decode]), for EVERY byte string.
+   Second half of the file: what an ACCEPTED byte string describes is what is returned
+   (C08_accepted_file_describes_result), the result is a well-formed ontology
+   (C08_accepted_file_is_wellformed) and does not depend on the order of records
+   (C08_record_order_irrelevant) — for every input whose parent section names only stored terms
+   (bin_closed) and whose annotation sections do not repeat a record id (bin_distinct).
+   bin_sections / parse_parents / parse_records (Proofs/DecodeAnyP.v) are the reading of the
+   documented layout these statements are relative to. *)
+From Coq Require Import Permutation.
+From HpoV Require Import Gen.Consts Model.Base Model.Group Model.Onto Model.Binary Proofs.BinaryP Proofs.DecodeP
+  Proofs.ClosureP Proofs.AcyclicP Proofs.DistP Proofs.RecordsP Proofs.SectionP Proofs.RoundTripP Proofs.AnnotP Proofs.ReloadP Proofs.C16M
+  Proofs.DecodeAnyP Proofs.DecodeOrderP Proofs.DecodeGP.
 
 (* any accepted file followed by any non-empty suffix is rejected with ParseBinaryError *)
 Theorem C08_every_extension_rejected : forall icf f s o, decode icf f = Ok o -> s <> [] ->
@@ -23,8 +33,75 @@ Proof. exact decode_bad_version. Qed.
 Theorem C08_writer_version_accepted : mem EMIT_VERSION ACCEPTED_VERSIONS = true /\ MAGIC_WRITER = MAGIC_READER.
 Proof. exact writer_version_accepted. Qed.
 
+(* whatever from_bytes accepts (v1, v2 or v3) is a well-formed ontology: exact ancestor caches with
+   children = parents^-1, acyclic, inherited annotation sets, IC = calculate(N, n), distinct
+   record ids, default sets a fixed point of build_with_defaults *)
+Theorem C08_accepted_file_is_wellformed : forall icf input o,
+  decode icf input = Ok o -> bin_closed input -> bin_distinct input ->
+  src_ok o /\ acyclic (o_arena o) /\ ann_ok o /\ ic_ok icf o /\
+  (forall k, NoDup (map a_id (o_records k o))) /\ b_build_with_defaults o = Ok o.
+Proof. exact decode_any_ok. Qed.
+
+(* the ontology returned is the one the file describes: header version, one term per term record
+   (position, id, name, flags), one direct link per (term, parent) pair of the parent section, the
+   records of each annotation section in file order; no ORPHA records from a v1 / v2 file *)
+Theorem C08_accepted_file_describes_result : forall icf input o,
+  decode icf input = Ok o -> bin_closed input -> bin_distinct input ->
+  exists v ver f st sp sg sm so a1 conns gs ms,
+    bin_sections input = Ok (v, ver, f, (st, sp, sg, sm, so)) /\
+    read_terms f v st arena_default = Ok a1 /\ parse_parents f sp 0 = Ok conns /\
+    parse_records f KGene sg 0 = Ok gs /\ parse_records f KOmim sm 0 = Ok ms /\
+    o_version o = ver /\
+    core (ar_terms a1) (ar_terms (o_arena o)) /\
+    (forall c p, parent_rel (o_arena o) c p <-> In (c, p) conns) /\
+    o_records KGene o = gs /\ o_records KOmim o = ms /\
+    match so with Some s => parse_records f KOrpha s 0 = Ok (o_records KOrpha o) | None => o_records KOrpha o = [] end.
+Proof. exact decode_any_describes. Qed.
+
+(* independent of the order of records inside a section *)
+Theorem C08_record_order_irrelevant : forall icf in1 in2 o1 o2 t1 t2,
+  decode icf in1 = Ok o1 -> decode icf in2 = Ok o2 ->
+  bin_closed in1 -> bin_closed in2 -> bin_distinct in1 -> bin_distinct in2 ->
+  (forall k r d, In r (o_records k o1) -> In d (a_hpos r) -> In d (ar_keys (o_arena o1))) ->
+  (forall k r d, In r (o_records k o2) -> In d (a_hpos r) -> In d (ar_keys (o_arena o2))) ->
+  same_facts o1 o2 ->
+  In t1 (ar_terms (o_arena o1)) -> In t2 (ar_terms (o_arena o2)) -> t_id t2 = t_id t1 ->
+  t_parents t2 = t_parents t1 /\ t_children t2 = t_children t1 /\ t_allp t2 = t_allp t1 /\
+  (forall k, t_annots k t2 = t_annots k t1) /\ t_ic t2 = t_ic t1.
+Proof. exact decode_any_order_independent. Qed.
+
+(* writing an accepted file's ontology out again and loading that returns the same ontology *)
+Theorem C08_accepted_file_reserialises : forall icf input o order o'',
+  decode icf input = Ok o -> bin_closed input -> bin_distinct input ->
+  file_ok order o -> (forall l, Permutation (order l) l) -> decode icf (encode_with order o) = Ok o'' ->
+  Forall2 term_kept (ar_terms (o_arena o)) (ar_terms (o_arena o'')) /\
+  Forall2 (fun t t'' => forall k, t_annots k t'' = t_annots k t) (ar_terms (o_arena o)) (ar_terms (o_arena o'')) /\
+  Forall2 (fun t t'' => t_ic t'' = t_ic t) (ar_terms (o_arena o)) (ar_terms (o_arena o'')) /\
+  (forall k, o_records k o'' = map (raw_record k) (order (o_records k o))) /\ o_version o'' = o_version o /\
+  o_cat o'' = o_cat o /\ o_mod o'' = o_mod o.
+Proof. exact decode_any_roundtrip. Qed.
+
+(* the two conditions are satisfiable: the file written for two linked terms, a gene and a disease *)
+Theorem C08_conditions_satisfiable :
+  let t1 := mkTerm 1 [65] [] [] [118] [7] [3] [] (0, 0, 0) false None in
+  let t2 := mkTerm 118 [66; 195; 182] [1] [1] [] [7] [3] [] (0, 0, 0) true (Some 1) in
+  let o := mkOnto (mkArena (new_term [] 0) [t1; t2]) [mkAnnot 7 [103] [118]] [mkAnnot 3 [100] [118]] [] (2024, 3, 1) [] [] in
+  let input := encode_with (fun l => l) o in
+  (exists o', decode (fun _ _ => Ok 0) input = Ok o') /\ bin_closed input /\ bin_distinct input.
+Proof. exact decode_any_example. Qed.
+
+(* the evaluator the correspondence run executes on damaged files (Run/C08.v [dec]) is the transcription *)
+Theorem C08_guarded_evaluator_is_decode : forall icf input, decode_g icf input = decode icf input.
+Proof. exact decode_g_eq. Qed.
+
 Print Assumptions C08_every_extension_rejected.
 Print Assumptions C08_every_proper_prefix_rejected.
 Print Assumptions C08_short_rejected.
 Print Assumptions C08_bad_version_rejected.
 Print Assumptions C08_writer_version_accepted.
+Print Assumptions C08_accepted_file_is_wellformed.
+Print Assumptions C08_accepted_file_describes_result.
+Print Assumptions C08_record_order_irrelevant.
+Print Assumptions C08_accepted_file_reserialises.
+Print Assumptions C08_conditions_satisfiable.
+Print Assumptions C08_guarded_evaluator_is_decode.
